@@ -543,3 +543,56 @@ func (p *Prog) closeRejected(fs FactSet, depth int) FactSet {
 	}
 	return out
 }
+
+// BoolPhiDNF: the alternatives under which a boolean phi (a short-circuit `a || b`, `a && b`,
+// possibly nested) has the value want, each as the facts necessary to arrive over one incoming
+// edge plus the fact on the incoming value. nil if the phi is not of that shape.
+func (g *Graph) BoolPhiDNF(phi *ssa.Phi, ctx *Ctx, want bool) []FactSet {
+	heads := g.heads[ctx]
+	if heads == nil {
+		return nil
+	}
+	var alts []FactSet
+	var perEdge func(phi *ssa.Phi, depth int) bool
+	perEdge = func(phi *ssa.Phi, depth int) bool {
+		S := phi.Block()
+		head := heads[S]
+		if head == nil {
+			return false
+		}
+		for i, e := range phi.Edges {
+			pb := S.Preds[i]
+			var preds []*Node
+			for _, pn := range head.Pred {
+				if pn.In != nil && pn.In.Block() == pb {
+					preds = append(preds, pn)
+				}
+			}
+			if len(preds) == 0 {
+				continue
+			}
+			if inner, ok := e.(*ssa.Phi); ok && inner.Block() == pb && depth < 4 && straightToJump(pb) {
+				if !perEdge(inner, depth+1) {
+					return false
+				}
+				continue
+			}
+			fs := FactSet(g.NecessaryEdges(nodeSet(preds)))
+			if k, ok := e.(*ssa.Const); ok {
+				isTrue := k.Value != nil && k.Value.String() == "true"
+				if isTrue != want {
+					continue
+				}
+			} else {
+				t, pol := normFact(TermOf(e, ctx), want)
+				fs = append(fs, Fact{Cond: t, Pol: pol})
+			}
+			alts = append(alts, fs)
+		}
+		return true
+	}
+	if !perEdge(phi, 0) {
+		return nil
+	}
+	return alts
+}
